@@ -3,10 +3,12 @@ package checks
 import (
 	"encoding/json"
 	"fmt"
+	"math"
 	"math/big"
 	"os"
 	"path/filepath"
 	"regexp"
+	"strconv"
 	"strings"
 
 	"github.com/atombender/go-jsonschema/pkg/mathutils"
@@ -379,6 +381,38 @@ func init() {
 						docs = append(docs, M{"v": json.Number(d)})
 					}
 					pcs = append(pcs, baseCase("c05-huge-bounds", schema, docs, "number", kw, txt))
+				}
+			}
+		}
+		// bounds of a `number` with MANY DECIMALS or a tiny magnitude (coordinates, tolerances, rates): the check compares with
+		// the number as stated, not with a rounded rendering of it.  Documents: the bound, its floating-point neighbours, the
+		// bound rounded to 3..9 decimals, and values between those
+		for _, bt := range []string{"0.1234567", "1.00000049", "0.0000001", "179.9999999", "2.5e-9", "123456.7890123", "0.00000015", "3.14159265358979", "0.3333333333", "1e-12", "99.99999951", "0.000001"} {
+			for _, neg := range []bool{false, true} {
+				// (multipleOf with such values is the listed finding K3: math.Mod on binary floating point)
+				for _, kw := range []string{"maximum", "minimum", "exclusiveMaximum", "exclusiveMinimum"} {
+					txt := bt
+					if neg {
+						txt = "-" + bt
+					}
+					b, _ := strconv.ParseFloat(txt, 64)
+					node := sgen.M{"type": "number", kw: json.Number(txt)}
+					schema := sgen.M{"type": "object", "properties": sgen.M{"v": node}, "required": []any{"v"}}
+					vals := []float64{b, math.Nextafter(b, math.Inf(1)), math.Nextafter(b, math.Inf(-1)), 0, b * 2, -b, b / 2}
+					for dec := 3; dec <= 9; dec++ {
+						p := math.Pow(10, float64(dec))
+						r := math.Round(b*p) / p
+						vals = append(vals, r, (r+b)/2, math.Floor(b*p)/p, math.Ceil(b*p)/p)
+					}
+					var docs []any
+					seen := map[float64]bool{}
+					for _, v := range vals {
+						if !seen[v] {
+							seen[v] = true
+							docs = append(docs, M{"v": v})
+						}
+					}
+					pcs = append(pcs, baseCase("c05-long-decimals", schema, docs, "number", kw, txt))
 				}
 			}
 		}
